@@ -11,6 +11,19 @@ NOTE_COMMON = ("Theorems are about a hand-written Lean model; the model is tied 
                "float rounding measured not proved. Axioms: propext, Classical.choice, Quot.sound only.")
 
 CLAIMS = {
+ "C08": dict(
+   text="Proof (Lean 4) about the model of insert_temperature_interval (all helpers transcribed; after the two fix: commits): "
+        "curves_preserved — for every table (any number of rows) whose temperature column and interpolated column c are numeric "
+        "and strictly descending, and ANY list of requested temperatures (above, below, inside, several per interval, duplicates, "
+        "near-duplicates, unsorted) the call succeeds, returns the number of rows added, and the polyline through the new rows "
+        "equals the polyline through the old rows at EVERY rational temperature (induction over rows, buckets and edge blocks + "
+        "a refinement lemma for piecewise-linear functions); order_irrelevant (any permutation of the request gives the same "
+        "table); reinsertion_noop; genCfg_ok (the generated column layout is consistent, by kernel decide over the live constants). "
+        "Strict descent / no near-duplicates and the dT / dH bookkeeping of rows are NOT theorems yet: they are decided by the "
+        "correspondence (600+ call sequences per run, every cell of the final table compared) plus the property oracle applied "
+        "to the implementation after every call.",
+   technique="Lean 4 proof (structural induction + piecewise-linear refinement lemma) + correspondence testing over call histories",
+   design="§6 C08"),
  "C01": dict(
    text="Proof (Lean 4): di_targets_exact — for every list of hot and cold streams (any number, any CP sign) and every grid that "
         "is compatible with them (strictly descending, gaps wider than the code's 10*tol window, no stream bound inside a cell, "
